@@ -626,7 +626,7 @@ class GhmCdf(MargBase):
             cx.oblige(f"post.integrand.range{j}", T.eq(term_of(r[1]), self.x.get((i, j))) if okr else False, "post", "variable j is integrated over (0, x[i, j])")
 
 
-@contract(GHM + ".marginal_icdf", ["C06"], _marg_cases(), name="ghm.marginal_icdf")
+@contract(GHM + ".marginal_icdf", ["C06", "C16"], _marg_cases(), name="ghm.marginal_icdf")
 class MargIcdf(Contract):
     """unconditional variable: its own icdf (exact); conditional variable: the empirical p-quantile of column `dim`
     of a fresh sample of n = max(int(100 precision_factor / min(p_min, 1 - p_max)), 100000) points"""
@@ -686,7 +686,7 @@ class MargIcdf(Contract):
         cx.oblige("post.marginal_icdf_mc.quantile_of_column_dim", T.eq(r.get((k,)), want) if isinstance(r, SArr) else False, "post", "empirical quantile of the sampled column of variable `dim`")
 
 
-@contract(GHM + ".draw_sample", ["C07"], [dict(rs=r) for r in ("seed", "generator")], name="ghm.draw_sample.any_n_dim")
+@contract(GHM + ".draw_sample", ["C07", "C16"], [dict(rs=r) for r in ("seed", "generator")], name="ghm.draw_sample.any_n_dim")
 class GhmDrawSym(Contract):
     """the sampling clause for a SYMBOLIC number of variables and an arbitrary admissible conditional_on: loop
     invariant through an arbitrary fixed cell (k0, j0) - once column j0 is drawn it is the (conditional) quantile of
